@@ -141,6 +141,21 @@ func (n *nestedCfg) entry(rng *rand.Rand, dst int, peers []int) (m.RoutingTableE
 		hops = append(hops, m.SwitchHop{Router: n.univ[x-1], ForwardLabel: m.SwitchLabel(20 + i), ReturnLabel: m.SwitchLabel(30 + i)})
 	}
 	hops = append(hops, m.SwitchHop{Router: d, ReturnLabel: 40})
+	// one gossip route in eight carries a switch path the table must refuse (its blocks cannot be built): a return
+	// label on the first hop, a forward label on the last, or labels beyond 255 bytes - "not added" then means that
+	// the table is exactly what it was
+	switch rng.Intn(24) {
+	case 0:
+		hops[0].ReturnLabel = m.SwitchLabel(1 + rng.Intn(200))
+	case 1:
+		hops[len(hops)-1].ForwardLabel = m.SwitchLabel(1 + rng.Intn(200))
+	case 2:
+		long := []m.SwitchHop{hops[0]}
+		for i := 0; i < 140; i++ {
+			long = append(long, m.SwitchHop{Router: n.univ[relays[0]-1], ForwardLabel: m.SwitchLabel(20000 + i), ReturnLabel: m.SwitchLabel(30000 + i)})
+		}
+		hops = append(long, hops[len(hops)-1])
+	}
 	e := m.RoutingTableEntry{DstIP: d, NextHop: n.univ[relays[0]-1], Source: m.RouteSourceGossip, Expires: time.Now().Add(2 * time.Hour), Path: m.SwitchPath{Hops: hops}}
 	return e, nroute{Dst: dst, Nh: relays[0], Src: "gossip", Hops: len(relays) + 1, Delay: int(first), Relays: relays, Exp: "fresh"}
 }
